@@ -96,6 +96,9 @@ def tlc(module, cfg, workdir, env=None, workers=1, timeout=1800, simulate=None, 
     if deque:
         jopts.append("-Dtlc2.tool.queue.IStateQueue=StateDeque")
     cmd = ["java"] + jopts + ["-cp", JAVA_CP, "tlc2.TLC", "-workers", str(workers), "-metadir", meta, "-cleanup",
+                              # no checkpoints: the depth-first state queue used for trace validation cannot write them, and a
+                              # validation shard that runs for 30 minutes would die at TLC's first checkpoint
+                              "-checkpoint", "0",
                               "-noGenerateSpecTE", "-config", cfg]
     if simulate:
         cmd += ["-simulate", simulate]
